@@ -71,6 +71,79 @@ def _calls_self(raw):
     return False
 
 
+CLOSURE_CALL = ("std::ops::FnOnce::call_once", "std::ops::FnMut::call_mut", "std::ops::Fn::call")
+
+
+def _closure_of(caller, local, depth=0):
+    """the closure a local holds, if it is assigned exactly once from a closure aggregate (directly, through moves, or
+    through a reference to such a local)"""
+    if depth > 12:
+        return None
+    defs = []
+    for bb in caller["blocks"]:
+        for st in bb["s"]:
+            a = st.get("a")
+            if a and a["l"] == local and not a["p"]:
+                defs.append(st.get("rv") or {})
+        t = bb["term"]
+        if t["k"] == "call" and t.get("dest") and t["dest"]["l"] == local and not t["dest"]["p"]:
+            defs.append({"call": True})
+    if len(defs) != 1:
+        return None
+    rv = defs[0]
+    agg = rv.get("agg")
+    if isinstance(agg, dict) and "closure" in agg:
+        return agg["closure"]
+    src = None
+    if isinstance(rv.get("use"), dict):
+        src = rv["use"].get("move") or rv["use"].get("copy")
+    elif isinstance(rv.get("ref"), dict):
+        src = rv["ref"]
+    if src and not src["p"]:
+        return _closure_of(caller, src["l"], depth + 1)
+    return None
+
+
+def _inline_known_closures(caller, bodies, budget):
+    n = 0
+    i = 0
+    while i < len(caller["blocks"]) and n < budget:
+        t = caller["blocks"][i]["term"]
+        i += 1
+        if t["k"] != "call" or not isinstance(t.get("f"), dict) or t["f"].get("fn") not in CLOSURE_CALL or \
+                t["f"].get("how") != "unresolved" or len(t["args"]) != 2 or t.get("dest") is None:
+            continue
+        pl = t["args"][0].get("move") or t["args"][0].get("copy")
+        tup = t["args"][1].get("move") or t["args"][1].get("copy")
+        if not pl or pl["p"] or not tup:
+            continue
+        cpath = _closure_of(caller, pl["l"])
+        clo = bodies.get(cpath) if cpath else None
+        if clo is None or len(clo["blocks"]) > MAX_BLOCKS:
+            continue
+        off_l = len(caller["locals"])
+        off_b = len(caller["blocks"])
+        caller["locals"].extend(copy.deepcopy(clo["locals"]))
+        ln = t.get("ln")
+        blk = caller["blocks"][i - 1]
+        blk["s"].append({"a": {"l": off_l + 1, "p": []}, "rv": {"use": t["args"][0]}, "ln": ln})
+        for k in range(2, clo["argc"] + 1):
+            fld = {"f": k - 2, "n": str(k - 2), "t": clo["locals"][k].get("t")}
+            blk["s"].append({"a": {"l": off_l + k, "p": []},
+                             "rv": {"use": {"move": {"l": tup["l"], "p": list(tup["p"]) + [fld]}}}, "ln": ln})
+        cont, dest = t["t"], t["dest"]
+        for bb in clo["blocks"]:
+            nb = {"s": [_remap(x, off_l, off_b) for x in bb["s"]], "cleanup": bb.get("cleanup", False),
+                  "term": _remap_term(bb["term"], off_l, off_b)}
+            if nb["term"]["k"] == "return":
+                nb["s"].append({"a": dest, "rv": {"use": {"move": {"l": off_l, "p": []}}}, "ln": ln})
+                nb["term"] = {"k": "goto", "t": cont, "ln": ln} if cont is not None else {"k": "unreachable", "ln": ln}
+            caller["blocks"].append(nb)
+        blk["term"] = {"k": "goto", "t": off_b, "ln": ln}
+        n += 1
+    return n
+
+
 def inline_new_functions(raws):
     """-> notes; mutates raws"""
     if not os.path.exists(ANCHORS):
@@ -134,6 +207,12 @@ def inline_new_functions(raws):
                 i += 1
         if not changed:
             break
+    # a closure handed to an inlined generic helper (`with_symbol_at(db, pos, |symbol| ..)`) is called there through
+    # an unresolved `FnOnce::call_once`; once the helper is part of the caller the closure is known: splice its body
+    targets = {c for cs in sites.values() for c in cs}
+    for (cname, cpath), caller in list(bodies.items()):
+        if cpath in targets:
+            done += _inline_known_closures(caller, {p: b for (cn, p), b in bodies.items() if cn == cname}, MAX_INLINES - done)
     for cname, raw in raws.items():
         if cname not in CRATES:
             continue
